@@ -17,6 +17,33 @@ import copy
 from .core import Fn, callee_of
 
 MAX_BLOCKS = 120
+_CALL_CLOSURE = ('core::ops::function::FnOnce::call_once', 'core::ops::function::FnMut::call_mut', 'core::ops::function::Fn::call')
+
+
+def _whole(o):
+    p = o.get('cp') or o.get('mv') if isinstance(o, dict) else None
+    return p['l'] if p is not None and not p['p'] else None
+
+
+def _closure_operand(fv, o):
+    """name of the closure an operand denotes in the (partially built) view fv, or None"""
+    if 'c' in o:
+        return o['c'].get('closure')
+    e = fv.expr_of_operand(o)
+    hops = 0
+    while isinstance(e, tuple) and hops < 12:
+        hops += 1
+        if e[0] in ('ref', 'cast'):
+            e = e[2]
+        elif e[0] == 'proj' and all(p == '*' for p in e[2]):
+            e = e[1]
+        else:
+            break
+    if isinstance(e, tuple) and e[0] == 'closure':
+        return e[1]
+    if isinstance(e, tuple) and e[0] == 'const' and isinstance(e[1], dict) and e[1].get('closure'):
+        return e[1]['closure']
+    return None
 
 
 def _shift_place(p, off_l):
@@ -90,13 +117,31 @@ def inline_fn(fx, f, transparent, depth=2, thread=True):
             if t['k'] != 'call' or t.get('target') is None:
                 continue
             c = callee_of(t)
-            if c is None or c == f.name or not transparent(c):
+            call_args = t['args']
+            if c in _CALL_CLOSURE and len(t['args']) == 2 and j is not None:
+                # a closure handed to a spliced helper and invoked there: splice the closure body as well, if the callee
+                # operand is (a reference to) one closure written in this crate
+                cl = _closure_operand(Fn(f.name, j, f.types), t['args'][0])
+                tl = _whole(t['args'][1])
+                if cl is not None and cl in fx.fns and tl is not None:
+                    g0 = fx.fns[cl]
+                    stack = stack_of.get(bb, ())
+                    if cl not in stack and len(stack) < depth + 1 and g0.nblocks <= MAX_BLOCKS:
+                        c = cl
+                        call_args = [t['args'][0]] + [{'mv': {'l': tl, 'p': [{'f': str(i), 'i': i}], 't': g0.j['locals'][2 + i]['t']}}
+                                                      for i in range(g0.argc - 1)]
+                        ok_closure = True
+                    else:
+                        continue
+                else:
+                    continue
+            elif c is None or c == f.name or not transparent(c):
                 continue
             stack = stack_of.get(bb, ())
-            if c in stack or len(stack) >= depth:
+            if c in stack or len(stack) >= depth + (1 if '{closure' in c else 0):
                 continue
             g = fx.fns[c]
-            if len(t['args']) != g.argc:
+            if len(call_args) != g.argc:
                 continue
             if j is None:
                 j = copy.deepcopy(f.j)
@@ -123,7 +168,7 @@ def inline_fn(fx, f, transparent, depth=2, thread=True):
                     _shift_block_targets(gt, off_b)
                 stack_of[off_b + i] = stack + (c,)
             # parameter passing
-            for i, a in enumerate(t['args']):
+            for i, a in enumerate(call_args):
                 blocks[bb]['stmts'].append({'k': 'assign', 'lhs': {'l': off_l + 1 + i, 'p': [], 't': g.j['locals'][1 + i]['t']},
                                             'rv': {'k': 'use', 'o': copy.deepcopy(a)}, 'at': at, 'exp': False, 'inl': c, 'param': True})
             blocks[bb]['term'] = {'k': 'goto', 'target': off_b, 'at': at, 'exp': False, 'inl': c, 'was_call': c}
@@ -201,17 +246,20 @@ def _defs_of(blocks, L):
 
 
 def _root_defs(blocks, types, L, depth=0, seen=()):
-    """[(block, variant name | 'true' | 'false')] covering every definition of local L, or None"""
+    """[(block, variant name | 'true' | 'false' | None)] covering every definition of local L: None marks a definition
+    whose variant is not known statically (it is left alone, but must not lie in a threaded corridor)"""
     if depth > 5 or L in seen:
-        return None
+        return [(-1, None)]
     res = []
     ds = _defs_of(blocks, L)
     if not ds:
-        return None
+        return [(-1, None)]
+    inv = {'true': 'false', 'false': 'true'}
     for bb, kind, d in ds:
         if kind == 'stmt':
             if d['k'] != 'assign' or d['lhs']['p']:
-                return None
+                res.append((bb, None))
+                continue
             rv = d['rv']
             if rv['k'] == 'agg' and rv.get('ak') == 'adt' and rv.get('variant'):
                 res.append((bb, rv['variant']))
@@ -222,27 +270,22 @@ def _root_defs(blocks, types, L, depth=0, seen=()):
                 elif types[c['t']] == 'bool' and c.get('v') in (0, 1):
                     res.append((bb, 'true' if c['v'] == 1 else 'false'))
                 else:
-                    return None
+                    res.append((bb, None))
             elif rv['k'] == 'use' and _whole_local(rv['o']) is not None:
-                sub = _root_defs(blocks, types, _whole_local(rv['o']), depth + 1, seen + (L,))
-                if sub is None:
-                    return None
-                res += sub
+                res += _root_defs(blocks, types, _whole_local(rv['o']), depth + 1, seen + (L,))
+                res.append((bb, None)) if False else None
+            elif rv['k'] == 'un' and rv.get('op') == 'Not' and _whole_local(rv['a']) is not None and types[d['lhs']['t']] == 'bool':
+                res += [(b2, inv.get(v)) for b2, v in _root_defs(blocks, types, _whole_local(rv['a']), depth + 1, seen + (L,))]
             else:
-                return None
+                res.append((bb, None))
         else:
             c = callee_of(d)
             if c in FROM_RESIDUAL:
                 res.append((bb, 'Err' if 'Result' in c else 'None'))
             elif c in TRY_BRANCH and len(d['args']) == 1 and _whole_local(d['args'][0]) is not None:
-                sub = _root_defs(blocks, types, _whole_local(d['args'][0]), depth + 1, seen + (L,))
-                if sub is None:
-                    return None
-                res += [(b2, _TRY_MAP.get(v)) for b2, v in sub]
-                if any(v is None for _, v in res):
-                    return None
+                res += [(b2, _TRY_MAP.get(v)) for b2, v in _root_defs(blocks, types, _whole_local(d['args'][0]), depth + 1, seen + (L,))]
             else:
-                return None
+                res.append((bb, None))
     return res
 
 
@@ -267,9 +310,15 @@ def _switch_info(blocks, types, S):
             return pl['l'], tgt
     if types[t['discr'].get('cp', t['discr'].get('mv'))['t']] == 'bool':
         # `switchInt(move _b)`: the local must not be redefined in this block after ... (it is defined elsewhere)
-        if any(st['k'] == 'assign' and st['lhs']['l'] == d for st in blocks[S]['stmts']):
-            return None
-        return d, {'false': listed.get(0, t['otherwise']), 'true': listed.get(1, t['otherwise'])}
+        loc = d
+        for st in blocks[S]['stmts']:
+            if st['k'] == 'assign' and st['lhs']['l'] == loc:
+                # `_t = copy _b; switchInt(move _t)`: the tested value is _b
+                src = _whole_local(st['rv']['o']) if st['rv']['k'] == 'use' and not st['lhs']['p'] else None
+                if src is None:
+                    return None
+                loc = src
+        return loc, {'false': listed.get(0, t['otherwise']), 'true': listed.get(1, t['otherwise'])}
     return None
 
 
@@ -287,15 +336,13 @@ def thread_jumps(j, types):
                 continue
             L, tgt = info
             roots = _root_defs(blocks, types, L)
-            if not roots or any(v not in tgt for _, v in roots):
+            if not roots or not any(v in tgt for _, v in roots):
                 continue
-            if len({v for _, v in roots}) < 2 and len(roots) < 2:
-                # a single definition: the switch is decided outright if that definition dominates it; handled below as well
-                pass
             done.add(S)
+            preds = None
             chain_blocks = {b for b, _ in roots}
             for BD, V in roots:
-                if BD == S:
+                if BD == S or BD < 0 or V not in tgt:
                     continue
                 # corridor: blocks strictly between BD and S
                 fwd = set()
@@ -306,10 +353,11 @@ def thread_jumps(j, types):
                         continue
                     fwd.add(x)
                     st.extend(_succs(blocks[x]['term']))
-                preds = {}
-                for b in range(len(blocks)):
-                    for x in _succs(blocks[b]['term']):
-                        preds.setdefault(x, []).append(b)
+                if preds is None:
+                    preds = {}
+                    for b in range(len(blocks)):
+                        for x in _succs(blocks[b]['term']):
+                            preds.setdefault(x, []).append(b)
                 back = set()
                 st = list(preds.get(S, []))
                 while st:
@@ -335,6 +383,7 @@ def thread_jumps(j, types):
                 sc = blocks[m[S]]
                 sc['term'] = {'k': 'goto', 'target': tgt[V], 'at': sc['term'].get('at'), 'exp': sc['term'].get('exp', False), 'threaded': V}
                 _retarget(blocks[BD]['term'], m)
+                preds = None
                 progress = True
         if not progress:
             break
@@ -380,6 +429,20 @@ def rule_vocabulary():
     return _VOCAB[0]
 
 
+def thread_fn(f):
+    """a copy of f with correlated branches threaded (no splicing): `let ok = a && b; if !ok { return }` then reads like
+    the nested ifs it stands for"""
+    j = copy.deepcopy(f.j)
+    n = thread_jumps(j, f.types)
+    if not n:
+        return f
+    nf = Fn(f.name, j, f.types)
+    nf.inlined = []
+    nf.splices = []
+    nf.threaded = n
+    return nf
+
+
 class View:
     """lazy cache of inlined views of functions under one transparency predicate"""
 
@@ -395,7 +458,8 @@ class View:
         if f is None:
             return None
         if f.name not in self._c:
-            self._c[f.name] = inline_fn(self.fx, f, self.transparent, self.depth)
+            v = inline_fn(self.fx, f, self.transparent, self.depth)
+            self._c[f.name] = thread_fn(f) if v is f else v
         return self._c[f.name]
 
     def inlined_into(self, name):
